@@ -321,6 +321,9 @@ def initial_lenses(v):
     L['finite-tilted'] = (p['od'][0], [S('sphere', R=R, mat=g1, t=t[1], dy=p['dy'], rx=p['rx']), S('sphere', R=-R, mat='air', t=t[0], stop=True),
                                        S('plane', mat=g2, t=t[0], dx=p['dx'], ry=p['ry']), S('sphere', R=-2 * R, mat='air', t=R)])
     L['catalogue'] = (LZ.INF, [S('sphere', R=R, mat='N-BK7', t=t[1], stop=True), S('sphere', R=-R, mat='SF11', t=t[0]), S('plane', mat='air', t=1.5 * R)])
+    # two singlets of the same glass, the material object created once and handed to both add_surface calls
+    L['shared-glass'] = (LZ.INF, [S('sphere', R=R, mat=g1, t=t[1], stop=True), S('sphere', R=-R, mat='air', t=t[0]),
+                                  S('sphere', R=2 * R, mat=g1, t=t[1]), S('sphere', R=-2 * R, mat='air', t=1.5 * R)])
     # a plano window that is bent into a lens by edits: pickup sources / targets are flat when the pickup is registered
     L['plano-window'] = (LZ.INF, [S('plane', mat=g1, t=t[1], stop=True), S('plane', mat='air', t=2 * R)])
     return L
@@ -604,6 +607,8 @@ def run_edits(part, unit):
     ap = ('EPD', p['epd'])
     ftype = 'angle' if math.isinf(obj) else 'object_height'
     sp = LZ.spec(surfs, obj=obj, ap=ap, ftype=ftype, fields=(0.0, p['ang'] if math.isinf(obj) else p['h']), waves=((0.55, True),))
+    if name == 'shared-glass':
+        sp['share_materials'] = True
 
     def fresh():
         o = LZ.build(sp)
